@@ -174,6 +174,10 @@ func armPaths(p *Program, fn *ssa.Function, start *ssa.BasicBlock, stop map[*ssa
 				if strings.HasPrefix(t, `fmt.Errorf("%s", List(Field(`) && strings.HasSuffix(t, ".Body)))") {
 					end = "return-plugin-error"
 				}
+				// the same error built without a format: errors.New(string(s.Body))
+				if strings.HasPrefix(t, `errors.New(Field(`) && strings.HasSuffix(t, ".Body))") {
+					end = "return-plugin-error"
+				}
 			}
 		}
 		key := strings.Join(seq, ",") + " -> " + end
@@ -346,6 +350,53 @@ func handleArms(p *Program, fn *ssa.Function) map[string][]string {
 	return armPaths(p, fn, fn.Blocks[0], nil, typeOf)
 }
 
+// compareProtocolArms compares the (replies, outcome) sets of a state machine with one table of
+// spec/protocol.json, arm by arm.
+func compareProtocolArms(r *Result, proto map[string]map[string][]string, fn *ssa.Function, got map[string][]string, table string) {
+	want := proto[table]
+	arms := map[string]bool{}
+	for a := range got {
+		arms[a] = true
+	}
+	for a := range want {
+		arms[a] = true
+	}
+	var names []string
+	for a := range arms {
+		names = append(names, a)
+	}
+	sort.Strings(names)
+	for _, a := range names {
+		g, w := strings.Join(expandConstMerges(underArm(got[a], a)), " | "), strings.Join(expandConstMerges(underArm(want[a], a)), " | ")
+		switch {
+		case want[a] == nil:
+			r.Bad(fn.String(), "arm:"+a, "", "the client handles command \""+a+"\", which the protocol table does not list: "+g)
+		case got[a] == nil:
+			r.Bad(fn.String(), "arm:"+a, "", "no arm for command \""+a+"\" (table: "+w+")")
+		default:
+			r.Check(g == w, fn.String(), "arm:"+a, "", g, "replies/outcomes differ from the protocol table\n   got  "+g+"\n   want "+w)
+		}
+	}
+}
+
+// checkPluginRecipientArms (shared with C11): the recipient state machine alone.
+func checkPluginRecipientArms(p *Program, r *Result) {
+	wwl := r.anchor(pkgPlugin, "Recipient", "WrapWithLabels")
+	if wwl == nil {
+		return
+	}
+	proto := loadProtocol(r)
+	if proto == nil {
+		return
+	}
+	got, _, _ := stateMachineArms(p, wwl)
+	if got == nil {
+		r.Unk(pkgPlugin, "read-loops", "", "read loop calling ClientUI.readStanza not found")
+		return
+	}
+	compareProtocolArms(r, proto, wwl, got, "recipient")
+}
+
 func runC16(p *Program, r *Result) {
 	wwl := r.anchor(pkgPlugin, "Recipient", "WrapWithLabels")
 	unw := r.anchor(pkgPlugin, "Identity", "Unwrap")
@@ -358,30 +409,7 @@ func runC16(p *Program, r *Result) {
 		return
 	}
 	compareArms := func(fn *ssa.Function, got map[string][]string, table string) {
-		want := proto[table]
-		arms := map[string]bool{}
-		for a := range got {
-			arms[a] = true
-		}
-		for a := range want {
-			arms[a] = true
-		}
-		var names []string
-		for a := range arms {
-			names = append(names, a)
-		}
-		sort.Strings(names)
-		for _, a := range names {
-			g, w := strings.Join(expandConstMerges(underArm(got[a], a)), " | "), strings.Join(expandConstMerges(underArm(want[a], a)), " | ")
-			switch {
-			case want[a] == nil:
-				r.Bad(fn.String(), "arm:"+a, "", "the client handles command \""+a+"\", which the protocol table does not list: "+g)
-			case got[a] == nil:
-				r.Bad(fn.String(), "arm:"+a, "", "no arm for command \""+a+"\" (table: "+w+")")
-			default:
-				r.Check(g == w, fn.String(), "arm:"+a, "", g, "replies/outcomes differ from the protocol table\n   got  "+g+"\n   want "+w)
-			}
-		}
+		compareProtocolArms(r, proto, fn, got, table)
 	}
 
 	r.Rule("R16.2", "per command: the set of (reply sequence, outcome) over all paths equals the protocol table", 13)
